@@ -98,15 +98,17 @@ Definition spec_vs_obs (q : qcase) (o : obs) : N :=
    deviation from the specification to exactly one known defect): the model is re-run with one flag switched on *)
 Definition with_flag (e : cfg) (i : N) : cfg :=
   match i with
-  | 0 => mkCfg true (strlit_invalid e) (fix9 e) (fix14 e) (fix15 e) (fixoid e) (fixsb e) (fixzone e)
-  | 1 => mkCfg (ks e) (strlit_invalid e) true (fix14 e) (fix15 e) (fixoid e) (fixsb e) (fixzone e)
-  | 2 => mkCfg (ks e) (strlit_invalid e) (fix9 e) true (fix15 e) (fixoid e) (fixsb e) (fixzone e)
-  | 3 => mkCfg (ks e) (strlit_invalid e) (fix9 e) (fix14 e) true (fixoid e) (fixsb e) (fixzone e)
-  | 4 => mkCfg (ks e) (strlit_invalid e) (fix9 e) (fix14 e) (fix15 e) true (fixsb e) (fixzone e)
-  | 5 => mkCfg (ks e) false (fix9 e) (fix14 e) (fix15 e) (fixoid e) (fixsb e) (fixzone e)
-  | 7 => mkCfg (ks e) (strlit_invalid e) (fix9 e) (fix14 e) (fix15 e) (fixoid e) true (fixzone e)
-  | 8 => mkCfg (ks e) (strlit_invalid e) (fix9 e) (fix14 e) (fix15 e) (fixoid e) (fixsb e) true
-  | _ => mkCfg true false true true true true true true
+  | 0 => mkCfg true (strlit_invalid e) (fix9 e) (fix14 e) (fix15 e) (fixoid e) (fixsb e) (fixzone e) (fixs3 e) (fixou e)
+  | 1 => mkCfg (ks e) (strlit_invalid e) true (fix14 e) (fix15 e) (fixoid e) (fixsb e) (fixzone e) (fixs3 e) (fixou e)
+  | 2 => mkCfg (ks e) (strlit_invalid e) (fix9 e) true (fix15 e) (fixoid e) (fixsb e) (fixzone e) (fixs3 e) (fixou e)
+  | 3 => mkCfg (ks e) (strlit_invalid e) (fix9 e) (fix14 e) true (fixoid e) (fixsb e) (fixzone e) (fixs3 e) (fixou e)
+  | 4 => mkCfg (ks e) (strlit_invalid e) (fix9 e) (fix14 e) (fix15 e) true (fixsb e) (fixzone e) (fixs3 e) (fixou e)
+  | 5 => mkCfg (ks e) false (fix9 e) (fix14 e) (fix15 e) (fixoid e) (fixsb e) (fixzone e) (fixs3 e) (fixou e)
+  | 7 => mkCfg (ks e) (strlit_invalid e) (fix9 e) (fix14 e) (fix15 e) (fixoid e) true (fixzone e) (fixs3 e) (fixou e)
+  | 8 => mkCfg (ks e) (strlit_invalid e) (fix9 e) (fix14 e) (fix15 e) (fixoid e) (fixsb e) true (fixs3 e) (fixou e)
+  | 9 => mkCfg (ks e) (strlit_invalid e) (fix9 e) (fix14 e) (fix15 e) (fixoid e) (fixsb e) (fixzone e) true (fixou e)
+  | 10 => mkCfg (ks e) (strlit_invalid e) (fix9 e) (fix14 e) (fix15 e) (fixoid e) (fixsb e) (fixzone e) (fixs3 e) true
+  | _ => mkCfg true false true true true true true true true true
   end.
 
 Definition model_is_spec (e : cfg) (q : qcase) : bool :=
@@ -117,7 +119,7 @@ Definition model_is_spec (e : cfg) (q : qcase) : bool :=
 
 Definition fixmask (q : qcase) : N :=
   fold_left (fun acc i => if model_is_spec (with_flag (q_cfg q) i) q then acc + N.shiftl 1 i else acc)
-            [0; 1; 2; 3; 4; 5; 6; 7; 8] 0.
+            [0; 1; 2; 3; 4; 5; 6; 7; 8; 9; 10] 0.
 
 (* is the case inside the domain of C03_select_is_solutions_partial? *)
 (* 2 = inside D3 (C03_select_is_solutions_partial), 1 = inside D10 only (C10_select_is_left_join_partial), 0 = outside *)
